@@ -468,6 +468,9 @@ def _init_htpasswd_context():
     # hack to remove dups and sort into preferred order
     preferred = schemes[:3] + ["apr_md5_crypt"] + schemes
     schemes = sorted(set(schemes), key=preferred.index)
+    # plaintext identifies every string, so it has to come last
+    schemes.remove("plaintext")
+    schemes.append("plaintext")
 
     # create context object
     return CryptContext(
